@@ -705,3 +705,223 @@ Theorem C18_enc_rid_inj_hash :
     enc_rid hash_bytes r = enc_rid hash_bytes r' -> r = r'.
 Proof. exact enc_rid_inj_hash. Qed.
 Print Assumptions C18_enc_rid_inj_hash.
+
+(* ------------------------------------------------------------------ *)
+(* facet 12: ORDER.  The store iterates keys in lexicographic byte order; the state machine
+   sorts identifiers field by field ([ctxid_leb], [rid_leb], [act_leb]).  Proofs/GapC18Order.v:
+     blt a b / ble a b : bytes.Compare(a, b) < 0 / <= 0  (boolean functions bltb, bleb);
+     nn_cid c = hash_ok (fst c) /\ 0 <= snd c < 2^63;
+     nn_rid r = nn_cid (rid_ctx r) /\ 0 <= rid_batch r < 2^64 /\ 0 <= rid_height r < 2^63
+                /\ 0 <= rid_index r < 2^15;
+     [hb] monotone: the hash bytes read as a big-endian integer.
+   The two orders agree on this domain and DISAGREE for negative signed fields. *)
+From Coq Require Import Sorting.Sorted.
+From SVC Require Import Model.Queries Proofs.GapC18Order.
+
+Theorem C18_blt_strict_total_order :
+  (forall a : bytes, ~ blt a a)
+  /\ (forall a b c : bytes, blt a b -> blt b c -> blt a c)
+  /\ (forall a b : bytes, blt a b \/ a = b \/ blt b a).
+Proof. exact blt_strict_total_order. Qed.
+Print Assumptions C18_blt_strict_total_order.
+
+Theorem C18_ble_iff : forall a b : bytes, ble a b <-> blt a b \/ a = b.
+Proof. exact ble_iff. Qed.
+Print Assumptions C18_ble_iff.
+
+Theorem C18_blt_app_prefix :
+  forall p a b : bytes, blt (p ++ a) (p ++ b) <-> blt a b.
+Proof. exact blt_app_prefix. Qed.
+Print Assumptions C18_blt_app_prefix.
+
+Theorem C18_blt_app_len :
+  forall a a' b b' : bytes,
+    length a = length a' ->
+    (blt (a ++ b) (a' ++ b') <-> blt a a' \/ (a = a' /\ blt b b')).
+Proof. exact blt_app_len. Qed.
+Print Assumptions C18_blt_app_len.
+
+(* big-endian fixed width: byte order = numeric order *)
+Theorem C18_be_lt_iff :
+  forall (k : nat) (n m : N),
+    (n < 256 ^ N.of_nat k)%N -> (m < 256 ^ N.of_nat k)%N ->
+    (blt (be k n) (be k m) <-> (n < m)%N).
+Proof. exact be_lt_iff. Qed.
+Print Assumptions C18_be_lt_iff.
+
+Theorem C18_be64_u64_lt_iff :
+  forall a b : Z,
+    0 <= a < 2 ^ 63 -> 0 <= b < 2 ^ 63 ->
+    (blt (be64 (u64 a)) (be64 (u64 b)) <-> a < b).
+Proof. exact be64_u64_lt_iff. Qed.
+Print Assumptions C18_be64_u64_lt_iff.
+
+Theorem C18_be64_u64_order_refuted :
+  exists a b : Z, is_int64 a /\ is_int64 b /\ a < b /\ blt (be64 (u64 b)) (be64 (u64 a)).
+Proof. exact be64_u64_order_refuted. Qed.
+Print Assumptions C18_be64_u64_order_refuted.
+
+(* context ids *)
+Theorem C18_enc_ctx_le :
+  forall hb : Z -> bytes,
+    (forall a : Z, hash_ok a -> length (hb a) = 32%nat) ->
+    (forall a b : Z, hash_ok a -> hash_ok b -> a < b -> blt (hb a) (hb b)) ->
+    forall c c' : CtxId, nn_cid c -> nn_cid c' ->
+      (ctxid_leb c c' = true <-> ble (enc_ctx hb c) (enc_ctx hb c')).
+Proof. exact enc_ctx_le. Qed.
+Print Assumptions C18_enc_ctx_le.
+
+Theorem C18_K_order_request_context :
+  forall hb : Z -> bytes,
+    (forall a : Z, hash_ok a -> length (hb a) = 32%nat) ->
+    (forall a b : Z, hash_ok a -> hash_ok b -> a < b -> blt (hb a) (hb b)) ->
+    forall c c' : CtxId, nn_cid c -> nn_cid c' ->
+      (ctxid_leb c c' = true
+       <-> ble (GetRequestContextKey (enc_ctx hb c)) (GetRequestContextKey (enc_ctx hb c'))).
+Proof. exact K_order_request_context. Qed.
+Print Assumptions C18_K_order_request_context.
+
+Theorem C18_K_order_expired_batch :
+  forall hb : Z -> bytes,
+    (forall a : Z, hash_ok a -> length (hb a) = 32%nat) ->
+    (forall a b : Z, hash_ok a -> hash_ok b -> a < b -> blt (hb a) (hb b)) ->
+    forall (c c' : CtxId) (h : Z), nn_cid c -> nn_cid c' ->
+      (ctxid_leb c c' = true
+       <-> ble (GetExpiredRequestBatchKey (enc_ctx hb c) h)
+               (GetExpiredRequestBatchKey (enc_ctx hb c') h)).
+Proof. exact K_order_expired_batch. Qed.
+Print Assumptions C18_K_order_expired_batch.
+
+Theorem C18_K_order_new_batch :
+  forall hb : Z -> bytes,
+    (forall a : Z, hash_ok a -> length (hb a) = 32%nat) ->
+    (forall a b : Z, hash_ok a -> hash_ok b -> a < b -> blt (hb a) (hb b)) ->
+    forall (c c' : CtxId) (h : Z), nn_cid c -> nn_cid c' ->
+      (ctxid_leb c c' = true
+       <-> ble (GetNewRequestBatchKey (enc_ctx hb c) h)
+               (GetNewRequestBatchKey (enc_ctx hb c') h)).
+Proof. exact K_order_new_batch. Qed.
+Print Assumptions C18_K_order_new_batch.
+
+(* across heights the expiry queue sorts by height first *)
+Theorem C18_K_order_expired_batch_heights :
+  forall hb : Z -> bytes,
+    (forall a : Z, hash_ok a -> length (hb a) = 32%nat) ->
+    (forall a b : Z, hash_ok a -> hash_ok b -> a < b -> blt (hb a) (hb b)) ->
+    forall (c c' : CtxId) (h h' : Z),
+      0 <= h < 2 ^ 63 -> 0 <= h' < 2 ^ 63 ->
+      (blt (GetExpiredRequestBatchKey (enc_ctx hb c) h)
+           (GetExpiredRequestBatchKey (enc_ctx hb c') h')
+       <-> h < h' \/ (h = h' /\ blt (enc_ctx hb c) (enc_ctx hb c'))).
+Proof. exact K_order_expired_batch_heights. Qed.
+Print Assumptions C18_K_order_expired_batch_heights.
+
+(* request ids *)
+Theorem C18_enc_rid_le :
+  forall hb : Z -> bytes,
+    (forall a : Z, hash_ok a -> length (hb a) = 32%nat) ->
+    (forall a b : Z, hash_ok a -> hash_ok b -> a < b -> blt (hb a) (hb b)) ->
+    forall r r' : ReqId, nn_rid r -> nn_rid r' ->
+      (rid_leb r r' = true <-> ble (enc_rid hb r) (enc_rid hb r')).
+Proof. exact enc_rid_le. Qed.
+Print Assumptions C18_enc_rid_le.
+
+Theorem C18_K_order_request :
+  forall hb : Z -> bytes,
+    (forall a : Z, hash_ok a -> length (hb a) = 32%nat) ->
+    (forall a b : Z, hash_ok a -> hash_ok b -> a < b -> blt (hb a) (hb b)) ->
+    forall r r' : ReqId, nn_rid r -> nn_rid r' ->
+      (rid_leb r r' = true
+       <-> ble (GetRequestKey (enc_rid hb r)) (GetRequestKey (enc_rid hb r'))).
+Proof. exact K_order_request. Qed.
+Print Assumptions C18_K_order_request.
+
+Theorem C18_K_order_active_by_id :
+  forall hb : Z -> bytes,
+    (forall a : Z, hash_ok a -> length (hb a) = 32%nat) ->
+    (forall a b : Z, hash_ok a -> hash_ok b -> a < b -> blt (hb a) (hb b)) ->
+    forall r r' : ReqId, nn_rid r -> nn_rid r' ->
+      (rid_leb r r' = true
+       <-> ble (GetActiveRequestKeyByID (enc_rid hb r)) (GetActiveRequestKeyByID (enc_rid hb r'))).
+Proof. exact K_order_active_by_id. Qed.
+Print Assumptions C18_K_order_active_by_id.
+
+Theorem C18_K_order_response :
+  forall hb : Z -> bytes,
+    (forall a : Z, hash_ok a -> length (hb a) = 32%nat) ->
+    (forall a b : Z, hash_ok a -> hash_ok b -> a < b -> blt (hb a) (hb b)) ->
+    forall r r' : ReqId, nn_rid r -> nn_rid r' ->
+      (rid_leb r r' = true
+       <-> ble (GetResponseKey (enc_rid hb r)) (GetResponseKey (enc_rid hb r'))).
+Proof. exact K_order_response. Qed.
+Print Assumptions C18_K_order_response.
+
+(* active markers of one binding: expiration height, then request id *)
+Theorem C18_K_order_active_request :
+  forall hb : Z -> bytes,
+    (forall a : Z, hash_ok a -> length (hb a) = 32%nat) ->
+    (forall a b : Z, hash_ok a -> hash_ok b -> a < b -> blt (hb a) (hb b)) ->
+    forall (bech : bytes -> bytes) (sn p : bytes) (a b : ReqId * Req),
+      nn_rid (fst a) -> nn_rid (fst b) ->
+      0 <= r_exp (snd a) < 2 ^ 63 -> 0 <= r_exp (snd b) < 2 ^ 63 ->
+      (act_leb a b = true
+       <-> ble (GetActiveRequestKey bech sn p (r_exp (snd a)) (enc_rid hb (fst a)))
+               (GetActiveRequestKey bech sn p (r_exp (snd b)) (enc_rid hb (fst b)))).
+Proof. exact K_order_active_request. Qed.
+Print Assumptions C18_K_order_active_request.
+
+(* with the hash written as 32 big-endian bytes: no hypothesis on the encoding left *)
+Theorem C18_K_order_expired_batch_hash :
+  forall (c c' : CtxId) (h : Z), nn_cid c -> nn_cid c' ->
+    (ctxid_leb c c' = true
+     <-> ble (GetExpiredRequestBatchKey (enc_ctx hash_bytes c) h)
+             (GetExpiredRequestBatchKey (enc_ctx hash_bytes c') h)).
+Proof. exact K_order_expired_batch_hash. Qed.
+Print Assumptions C18_K_order_expired_batch_hash.
+
+Theorem C18_K_order_new_batch_hash :
+  forall (c c' : CtxId) (h : Z), nn_cid c -> nn_cid c' ->
+    (ctxid_leb c c' = true
+     <-> ble (GetNewRequestBatchKey (enc_ctx hash_bytes c) h)
+             (GetNewRequestBatchKey (enc_ctx hash_bytes c') h)).
+Proof. exact K_order_new_batch_hash. Qed.
+Print Assumptions C18_K_order_new_batch_hash.
+
+Theorem C18_K_order_request_hash :
+  forall r r' : ReqId, nn_rid r -> nn_rid r' ->
+    (rid_leb r r' = true
+     <-> ble (GetRequestKey (enc_rid hash_bytes r)) (GetRequestKey (enc_rid hash_bytes r'))).
+Proof. exact K_order_request_hash. Qed.
+Print Assumptions C18_K_order_request_hash.
+
+(* a negative message index: the model puts (1, -1) before (1, 0), the store after *)
+Theorem C18_ctxid_order_refuted :
+  exists c c' : CtxId,
+    cid_ok c /\ cid_ok c' /\ ctxid_leb c c' = true
+    /\ blt (GetNewRequestBatchKey (enc_ctx hash_bytes c') 1)
+           (GetNewRequestBatchKey (enc_ctx hash_bytes c) 1).
+Proof. exact ctxid_order_refuted. Qed.
+Print Assumptions C18_ctxid_order_refuted.
+
+(* the order in which EndBlock handles the due contexts is the order of their queue keys *)
+Theorem C18_due_new_in_store_order :
+  forall hb : Z -> bytes,
+    (forall a : Z, hash_ok a -> length (hb a) = 32%nat) ->
+    (forall a b : Z, hash_ok a -> hash_ok b -> a < b -> blt (hb a) (hb b)) ->
+    forall (q : list (Z * CtxId)) (h : Z),
+      (forall e : Z * CtxId, In e q -> nn_cid (snd e)) ->
+      Sorted (fun c c' : CtxId => ble (GetNewRequestBatchKey (enc_ctx hb c) h)
+                                      (GetNewRequestBatchKey (enc_ctx hb c') h)) (due q h).
+Proof. exact due_new_in_store_order. Qed.
+Print Assumptions C18_due_new_in_store_order.
+
+Theorem C18_due_expired_in_store_order :
+  forall hb : Z -> bytes,
+    (forall a : Z, hash_ok a -> length (hb a) = 32%nat) ->
+    (forall a b : Z, hash_ok a -> hash_ok b -> a < b -> blt (hb a) (hb b)) ->
+    forall (q : list (Z * CtxId)) (h : Z),
+      (forall e : Z * CtxId, In e q -> nn_cid (snd e)) ->
+      Sorted (fun c c' : CtxId => ble (GetExpiredRequestBatchKey (enc_ctx hb c) h)
+                                      (GetExpiredRequestBatchKey (enc_ctx hb c') h)) (due q h).
+Proof. exact due_expired_in_store_order. Qed.
+Print Assumptions C18_due_expired_in_store_order.
